@@ -104,6 +104,9 @@ finding("C03-err-trap-inside-negated-compound", "C03", "`! while c; do ko; done`
         all=["other-divergence", "not"], observed_contains="ERR", why=PINNED + " (same mechanism as C03-err-trap-fires-twice: where Pipeline::execute reports a failure)")
 finding("C03-errexit-after-negated-compound", "C03", "a compound command (`case`, `for`, …) whose status 1 comes from a `!`-negated pipeline inside it makes errexit fire when the compound ends; bash goes on (here: falls through `;&` to the next arm and exits there)",
         all=["other-divergence", "not"], none=["opts:ERR", "opts:e+ERR", "opts:e+errtrace+ERR"], why="same defect as C03-errexit-negated-group, seen where bash also exits, only later")
+finding("C03-errexit-after-exempt-andor-in-loop", "C03", "a loop whose last body command is `ko && x` ends with status 1 from the exempt left operand; brush lets errexit fire when the (nested) loop ends, bash does not (the failure happened in an exempt position)",
+        all=["other-divergence", "and"], why="same defect as C03-errexit-negated-group: the exemption is not carried out of the compound command with its status")
+finding("C03-errexit-after-exempt-andor-in-loop2", "C03", "same with `||` chains", all=["other-divergence", "or"], why="same")
 finding("C03-nounset-arith-and-transforms", "C03", "under set -u, arithmetic on an unset variable is a non-fatal error (bash aborts), `${v@a}`/`${v@A}` of unset targets are accepted, `${#v[@]}`/`${!v}` differ, `$!` is accepted when unset",
         all=["nounset"], why=PINNED + " ('Special parameter $! does not error when no background jobs'); the rest needs a uniform unset check in every operator arm")
 
